@@ -70,6 +70,30 @@ func registerLibraryModels() {
 		e.assume(e.tt.SLt(e.tt.IntConst(0, 64), in.t))
 		return in.t
 	}
+	// sort.Slice / sort.SliceStable (reflectlite underneath): a stable insertion sort over the slice's cells with the
+	// caller's less function -- one of the orders sort.Slice may produce, the order SliceStable must produce
+	sortSlice := func(e *Engine, caller *frame, fn *ssa.Function, args []Value) Value {
+		ifc, ok := args[0].(Iface)
+		if !ok {
+			e.unsupported("sort.Slice of a non-interface value")
+		}
+		s, ok := ifc.V.(Slice)
+		if !ok {
+			panic(targetPanic{msg: "sort.Slice: argument is not a slice"})
+		}
+		for i := 1; i < len(s); i++ {
+			for j := i; j > 0; j-- {
+				r := e.call(caller, 0, args[1], []Value{e.tt.IntConst(int64(j), 64), e.tt.IntConst(int64(j-1), 64)}).(*Term)
+				if !e.decide(r) {
+					break
+				}
+				s[j], s[j-1] = s[j-1], s[j]
+			}
+		}
+		return nil
+	}
+	I["sort.Slice"] = sortSlice
+	I["sort.SliceStable"] = sortSlice
 	I["(*sync.Once).Do"] = func(e *Engine, caller *frame, fn *ssa.Function, args []Value) Value {
 		p := args[0].(*Value)
 		if e.onceDone == nil {
